@@ -701,7 +701,7 @@ func check(id, tier string) int {
 	if s := os.Getenv("VERIF_WORKERS"); s != "" {
 		workers, _ = strconv.Atoi(s)
 	}
-	if tier == "thorough" && spec.Engine == "cachesim" {
+	if tier == "thorough" {
 		// thorough tier: one run in three uses the "+deep" variant of its profile
 		// (longer programs, more keys and clients; cachesim/plan.go)
 		cp := *spec
